@@ -3,8 +3,8 @@ per-sender order preserved, nothing handled that was refused or never sent"""
 import native
 
 
-def run_native(threads, msgs, yields, end, tl, supevts=0):
-    out, _, rc, err = native.run('dequeue', threads=threads, msgs=msgs, yields=yields, end=end, tl=1 if tl else 0, supevts=supevts, timeout=90)
+def run_native(threads, msgs, yields, end, tl, supevts=0, serialized=0):
+    out, _, rc, err = native.run('dequeue', threads=threads, msgs=msgs, yields=yields, end=end, tl=1 if tl else 0, supevts=supevts, serialized=serialized, timeout=90)
     if rc != 0:
         raise RuntimeError('native dequeue failed: ' + err[-300:])
     f = lambda k: [int(x) for x in out.get(k, '').split(',') if x]
@@ -43,6 +43,10 @@ def battery(tl_too=True):
         for (threads, msgs, yields, end) in ((1, 6, 0, 'drain'), (3, 5, 1, 'drain'), (2, 300, 1, 'stop'), (2, 300, 2, 'kill')):
             o = run_native(threads, msgs, yields, end, tl)
             res.append({'threads': threads, 'msgs': msgs, 'yields': yields, 'end': end, 'thread_local': tl, 'supervision_events': 0, 'handled': len(o['handled']), 'accepted': len(o['sent_ok']), 'terms': o['terms'], 'violated': violated(o, end)})
+        # half of the messages arrive in serialized form (as from a remote node) and decode: they are handled like the others
+        o = run_native(2, 6, 0, 'drain', tl, serialized=1)
+        res.append({'threads': 2, 'msgs': 6, 'yields': 0, 'end': 'drain', 'thread_local': tl, 'supervision_events': 0, 'every_second_message_serialized': True, 'handled': len(o['handled']),
+                    'accepted': len(o['sent_ok']), 'terms': o['terms'], 'violated': violated(o, 'drain')})
         # a supervisor under load: messages and supervision events arrive from two OS threads at once, then the actor is drained
         o = run_native(1, 4000, 0, 'drain', tl, supevts=20000)
         res.append({'threads': 1, 'msgs': 4000, 'yields': 0, 'end': 'drain', 'thread_local': tl, 'supervision_events': 20000, 'handled': len(o['handled']), 'accepted': len(o['sent_ok']),
